@@ -2,7 +2,10 @@ module verif/gosx
 
 go 1.23
 
-require golang.org/x/tools v0.29.0
+require (
+	github.com/robfig/cron/v3 v3.0.1
+	golang.org/x/tools v0.29.0
+)
 
 require (
 	golang.org/x/mod v0.22.0 // indirect
